@@ -105,6 +105,8 @@ def accurate : φ := 1 / 100000000
 def overflowC : φ := RealLike.ofNat (10 ^ 30)
 /-- `DBL_MIN = 2.2250738585072014e-308 = 2^-1022` -/
 def dblMin : φ := 1 / pow 2 1022
+/-- `math.MaxFloat64 = (2 - 2^-52)·2^1023`; `math.IsInf(a, 1)` is `a > MaxFloat64` -/
+def maxFloat : φ := (2 - 1 / pow 2 52) * pow 2 1023
 
 /-! ## `stats/gamma.go` -/
 
@@ -181,17 +183,17 @@ def gammaDraws (alpha beta : φ) (fuel : Nat) : Nat → FProg φ (Res (List φ))
 
 /-! ## `stats/dirichlet.go` -/
 
-/-- the first loop of `Dirichlet`: `if a <= 0 → error` (the draws already made stay consumed),
+/-- the first loop of `Dirichlet`: `if !(a > 0.0) || math.IsInf(a, 1) → error` (the draws already made stay consumed),
 `sample[i] = gamma(a, 1); sum += sample[i]`.  `acc` is the reversed sample so far. -/
 def dirichletLoop (fuel : Nat) : List φ → List φ → φ → FProg φ (Res (List φ × φ))
   | [], acc, sum => .pure (.ok (acc.reverse, sum))
   | a :: rest, acc, sum =>
-    if leb a 0 then .pure .err
+    if !(ltb 0 a) || ltb maxFloat a then .pure .err
     else FProg.bind (gammaS a 1 fuel) fun
       | none => .pure .fuel
       | some g => dirichletLoop fuel rest (g :: acc) (sum + g)
 
-/-- `Dirichlet(factor, alpha...)`: error iff `len(alpha) <= 2` (sic) or some `alpha_i <= 0`;
+/-- `Dirichlet(factor, alpha...)`: error iff `len(alpha) <= 2` (sic) or some `alpha_i` is not a positive finite number;
 `sample[i] = factor * sample[i] / sum` -/
 def dirichlet (factor : φ) (alphas : List φ) (fuel : Nat) : FProg φ (Res (List φ)) :=
   if alphas.length ≤ 2 then .pure .err
@@ -324,7 +326,9 @@ def incompleteGamma (x alpha lnGammaAlpha : φ) (fuel : Nat) : Option φ :=
       let b := a + x + 1
       let pn2 := x + 1
       let pn3 := x * b
-      (cfLoop fuel ⟨a, b, 0, pn2 / pn3, 1, x, pn2, pn3⟩).map fun gin => 1 - factor * gin
+      -- `if factor == 0 { return 1.0 }` (prefactor underflow far in the upper tail)
+      if eqb factor 0 then some 1
+      else (cfLoop fuel ⟨a, b, 0, pn2 / pn3, 1, x, pn2, pn3⟩).map fun gin => 1 - factor * gin
     else
       (igSeries x fuel p 1 1).map fun gin => gin * (factor / p)
 
